@@ -94,6 +94,7 @@ pub fn record(pool_paths: &str, w: &mut dyn Write, seed: u64, n_events: usize) {
     let mut emitted = 0usize;
     let mut k = 0usize;
     while emitted < n_events {
+        crate::ctx::beat(&format!("{{\"record\": \"c10\", \"seed\": {seed}, \"event\": {emitted}}}"));
         k += 1;
         let want_general = k % 3 == 2;
         // every fourth polygon has at least two holes (hole bookkeeping of the triangulators), if the pools have any
